@@ -5,6 +5,7 @@ package pppoe
 import (
 	"context"
 	"encoding/binary"
+	"fmt"
 	"net"
 	"sync"
 	"time"
@@ -488,6 +489,9 @@ func ParsePADT(data []byte) (sessionID uint16, tags []Tag, err error) {
 	}
 
 	if len(data) > 6 {
+		if int(hdr.Length) > len(data)-6 {
+			return 0, nil, fmt.Errorf("PPPoE length exceeds data")
+		}
 		tags, err = ParseTags(data[6 : 6+int(hdr.Length)])
 		if err != nil {
 			return 0, nil, err
